@@ -123,7 +123,11 @@ fn get_node_cover_range_impl(
         // A paragraph break is an `Expr`, but not something to lay out by itself:
         // the blanks after its last line feed are the indentation of what follows.
         && node.kind() != SyntaxKind::Parbreak
-        && (node.is::<Markup>() || node.is::<Expr>() || node.is::<Pattern>()))
+        // Only the document's own markup is laid out by itself; the body of a strong, a content block,
+        // a heading or an item is laid out through that element, which knows how its edges are spaced.
+        && ((node.is::<Markup>() && node.parent().is_none())
+            || node.is::<Expr>()
+            || node.is::<Pattern>()))
     .then(|| (node.span(), mode))
     // It returns span to avoid problems with borrowing.
 }
